@@ -32,6 +32,8 @@ func main() {
 			resp = doScan(rq.Body)
 		case "counts":
 			resp = doCounts(rq.Body)
+		case "output":
+			resp = doOutput(rq.Body)
 		case "human":
 			resp = doHuman(rq.Body)
 		case "getconfig":
